@@ -301,6 +301,12 @@ func (m *Model) deleteMode(id string, opts ...resource.WriteOption) error {
 	if id == active.Id {
 		return ErrDeleteActiveMode
 	}
+	// The modes collection may keep a mode under another spelling of its id than the one the mode carries
+	// (resource.WithIDInterceptor, e.g. lower-casing): the active mode carries the stored mode's spelling, so the
+	// mode this id names is also compared by the id it carries.
+	if stored, ok := m.findMode(id); ok && stored.Id == active.Id {
+		return ErrDeleteActiveMode
+	}
 
 	// Delete reports a missing mode itself (NotFound), unless the caller passed resource.WithAllowMissing(true),
 	// in which case a missing mode is not an error.
